@@ -21,6 +21,12 @@ pub struct AbstractOnt {
 
 /// Group a scenario's facts into records (first name wins, direct terms only).
 pub fn abstract_of(s: &Scenario) -> AbstractOnt {
+    abstract_of_ordered(s, true)
+}
+
+/// `canonical`: id lists inside the records ascending (what the crate's writer emits);
+/// otherwise in the order the scenario supplies them (the layout prescribes none).
+pub fn abstract_of_ordered(s: &Scenario, canonical: bool) -> AbstractOnt {
     let mut par: BTreeMap<u32, Vec<u32>> = BTreeMap::new();
     for (p, c) in &s.edges {
         let v = par.entry(*c).or_default();
@@ -31,7 +37,9 @@ pub fn abstract_of(s: &Scenario) -> AbstractOnt {
     let mut parents = vec![];
     for t in &s.terms {
         let mut v = par.get(&t.id).cloned().unwrap_or_default();
-        v.sort_unstable();
+        if canonical {
+            v.sort_unstable();
+        }
         parents.push((t.id, v));
     }
     let mut recs: [Vec<(u32, String, Vec<u32>)>; 3] = Default::default();
@@ -50,9 +58,11 @@ pub fn abstract_of(s: &Scenario) -> AbstractOnt {
             }
         }
     }
-    for l in recs.iter_mut() {
-        for r in l.iter_mut() {
-            r.2.sort_unstable();
+    if canonical {
+        for l in recs.iter_mut() {
+            for r in l.iter_mut() {
+                r.2.sort_unstable();
+            }
         }
     }
     AbstractOnt { version: s.version, terms: s.terms.clone(), parents, recs }
